@@ -22,7 +22,7 @@ EXPLANATION = (
     'cursor (and line bookkeeping) is assigned.  Callers are checked against callee contracts.  '
     '(4) escape/unescape are compiled by the C++ front end from their real text: round trip and '
     '"every quote in the output is escaped" for every byte string up to the tier bound (bounded).')
-TRUSTED = ['cbmc 6.11.0 C and C++ front ends, goto-instrument --dfcc (contract instrumentation), SAT back end (MiniSat; CaDiCaL for lex/skipTo_se)',
+TRUSTED = ['cbmc 6.11.0 C and C++ front ends, goto-instrument --dfcc (contract instrumentation), SAT back end (CaDiCaL; MiniSat for tokenizer/getRawString_endloop)',
            'C extraction rules of DESIGN 4.2: reference parameter -> pointer + #define alias, ns::name -> ns_name, '
            'overloads numbered by signature, bool -> _Bool (stdbool.h)',
            'stubs/string: fixed-capacity std::string (capacity asserted on every append)',
@@ -578,10 +578,10 @@ def build(ctx):
     groups += prim_groups(ctx)
     groups += escape_groups(ctx)
     for g in groups:
-        # CaDiCaL (built into cbmc 6.11) instead of the default MiniSat where MiniSat is unlucky: the escape-aware
-        # ghost-index invariant of lex/skipTo_se is a small but hard instance (MiniSat 122 s, CaDiCaL 8 s);
-        # elsewhere MiniSat is as fast or faster (getRawString: 13 s vs 43 s)
-        if g.name in ('lex/skipTo_se',):
+        # CaDiCaL (built into cbmc 6.11) instead of the default MiniSat: the instances are small, but MiniSat is
+        # erratic on the ghost-index / pointer-offset reasoning (lex/skipTo_se 122 s vs 8 s, scan-then-step/getString
+        # 86 s vs 0.7 s, canary runs that time out); where MiniSat was measured to be clearly faster it is kept
+        if g.name not in ('tokenizer/getRawString_endloop',):
             g.extra_cbmc = ['--sat-solver', 'cadical']
     only = os.environ.get('VERIF_C12_ONLY')      # development aid: run a subset of the groups
     if only:
